@@ -1,0 +1,6 @@
+//go:build !verif
+
+package nsqd
+
+// verifCrashPoint is a no-op unless built with the verif tag (verification harness).
+func (d *DiskQueue) verifCrashPoint(point string) {}
